@@ -263,7 +263,8 @@ pub fn build_txout(o: &Value, ctx: &Ctx) -> TxOut {
 pub fn build_tx(tx: &Value, ctx: &Ctx) -> Transaction {
     Transaction {
         version: hexu32(s(tx, "version")),
-        lock_time: LockTime::from_consensus(hexu32(s(tx, "lock"))),
+        // through the constructor of its kind (heights below 500 000 000, times from there on)
+        lock_time: { let n = hexu32(s(tx, "lock")); if n < 500_000_000 { LockTime::from_height(n).expect("height") } else { LockTime::from_time(n).expect("time") } },
         input: tx["ins"].as_array().unwrap().iter().map(|i| build_txin(i, ctx)).collect(),
         output: tx["outs"].as_array().unwrap().iter().map(|o| build_txout(o, ctx)).collect(),
     }
